@@ -690,9 +690,9 @@ class IterativeCondGFormula:
 
         # Check array of treatments is either 1 row or same number of rows as input data
         treatment = np.array(treatments)
-        if treatment.ndim == 1:
+        if treatment.ndim == 1 or treatment.shape[0] == 1:
             treatment = np.tile(treatment, (self.gf[self.exposure].shape[0], 1))
-        elif treatment.shape[1] == self.gf[self.exposure].shape[0]:
+        elif treatment.shape[0] == self.gf[self.exposure].shape[0]:
             pass
         else:
             raise ValueError("Specified treatments must be either a single row or have the same number of rows as the "
@@ -713,7 +713,7 @@ class IterativeCondGFormula:
         # Step 2: Sequential Regression Estimation
         treat_plan = ['_tplan_' + str(p) for p in range(treatment.shape[1])]
         df = self.gf.copy()
-        df[treat_plan] = pd.DataFrame(treatment)
+        df[treat_plan] = pd.DataFrame(treatment, index=df.index)
         # adhere_cols = list(y_adhere.columns)
         # df[adhere_cols] = y_adhere
 
